@@ -32,6 +32,7 @@
 typedef struct dispatch_workloop_s *dispatch_workloop_t;
 extern dispatch_workloop_t dispatch_workloop_create(const char *label);
 extern dispatch_workloop_t dispatch_workloop_create_inactive(const char *label);
+extern void dispatch_workloop_set_autorelease_frequency(dispatch_workloop_t workloop, dispatch_autorelease_frequency_t frequency);
 extern void _dispatch_main_queue_callback_4CF(void *msg);
 extern int _dispatch_get_main_queue_handle_4CF(void);
 extern void dispatch_async_and_wait(dispatch_queue_t q, dispatch_block_t b);
